@@ -46,21 +46,29 @@ Theorem C11_wf_iff_denotes :
 Proof. exact wf_denotes. Qed.
 Print Assumptions C11_wf_iff_denotes.
 
-(** The class where the faithful model falsifies the property text: a raw newline inside "..." or
-    $"..." is "every other character" for the property, but the emitted Go does not compile. *)
-Theorem C11_newline_in_quoted_refuted :
+(** A raw newline inside "..." / $"..." is an ordinary character (scanStringLiteralToken re-escapes it
+    since its repair), so it is covered by C11_literal_roundtrip; for instance: *)
+Theorem C11_newline_in_quoted_preserved :
   forall f rest, f = Str \/ f = IStr ->
-    pipeline f [] (["a"; LF; "b"] ++ close f :: rest) = (CompileError, rest).
-Proof. exact newline_in_quoted_refuted. Qed.
-Print Assumptions C11_newline_in_quoted_refuted.
+    pipeline f [] (["a"; LF; "b"] ++ close f :: rest) = (Ok ["a"; LF; "b"], rest).
+Proof. exact newline_in_quoted_preserved. Qed.
+Print Assumptions C11_newline_in_quoted_preserved.
 
-Theorem C11_newline_in_string_never_compiles :
+(** Documentation of the repaired defect: with the tokenizer as it was before ([scan_string_old] inside
+    [pipeline_old]) the newline was kept verbatim and the emitted Go did not compile. *)
+Theorem C11_newline_in_quoted_old_refuted :
+  forall f rest, f = Str \/ f = IStr ->
+    pipeline_old f [] (["a"; LF; "b"] ++ close f :: rest) = (CompileError, rest).
+Proof. exact newline_in_quoted_old_refuted. Qed.
+Print Assumptions C11_newline_in_quoted_old_refuted.
+
+Theorem C11_newline_in_string_old_never_compiles :
   forall x y rest,
-    forallb (ok_char Str) x = true ->
-    scan_string (y ++ DQ :: rest) = Some (y, rest) ->
-    pipeline Str [] (x ++ LF :: y ++ DQ :: rest) = (CompileError, rest).
-Proof. exact newline_in_string_never_compiles. Qed.
-Print Assumptions C11_newline_in_string_never_compiles.
+    forallb (fun c => ok_char Str c && negb (Ascii.eqb c LF)) x = true ->
+    scan_string_old (y ++ DQ :: rest) = Some (y, rest) ->
+    pipeline_old Str [] (x ++ LF :: y ++ DQ :: rest) = (CompileError, rest).
+Proof. exact newline_in_string_old_never_compiles. Qed.
+Print Assumptions C11_newline_in_string_old_never_compiles.
 
 (** non-vacuity: concrete literals of each form meeting the hypotheses *)
 Definition ex_env : env := [(b "a", VInt (-42)); (b "s", VStr (b "x%y")); (b "xs", VOther (b "[1 2]"))].
@@ -86,6 +94,11 @@ Example C11_example_iraw :
   pipeline IRaw ex_env (b "raw {a} ""q"" \{s}" ++ [LF] ++ b "50% }`")
   = (Ok (b "raw -42 ""q"" \x%y" ++ [LF] ++ b "50% }"), []).
 Proof. vm_compute. reflexivity. Qed.
+
+Example C11_example_newline_in_quoted :
+  wf IStr ex_env (b "x" ++ [LF] ++ b "{a}") = true /\
+  pipeline IStr ex_env (b "x" ++ [LF] ++ b "{a}"" rest") = (Ok (b "x" ++ [LF] ++ b "-42"), b " rest").
+Proof. vm_compute. split; reflexivity. Qed.
 
 (** outside the grammar the model predicts fc's / Go's actual behaviour (not part of the property) *)
 Example C11_example_unknown_escape :
